@@ -48,6 +48,13 @@ Definition run_c06_case (es : list pevent) : list Z :=
   let '(st, os) := proto_run p_init es in
   flat_map (fun o => flat_map enc_pout o ++ [(-1)%Z]) os ++ [Z.of_N (p_seq st)].
 
+(* the same from a handler that has already issued [seq0] commands (sequence numbers wrap at 256) *)
+Definition run_c06_case_from (c : N * list pevent) : list Z :=
+  let '(seq0, es) := c in
+  let st0 := {| p_seq := seq0 mod 256; p_awaiting := []; p_holder := None; p_queue := []; p_counter := 0; p_calls := [] |} in
+  let '(st, os) := proto_run st0 es in
+  flat_map (fun o => flat_map enc_pout o ++ [(-1)%Z]) os ++ [Z.of_N (p_seq st)].
+
 (* ---- C08: raw bytes through frame_received, with or without a pending command ------------------ *)
 Definition invalid_fid_of (v : N) : N :=
   match find_by_name "invalidCommand"%string (commands_of v) with Some c => c_id c | None => 0xFFFFF end.
